@@ -65,9 +65,28 @@ namespace occa {
   }
 
   memory& memory::swap(memory &m) {
+    if (modeMemory == m.modeMemory) {
+      return *this;
+    }
     modeMemory_t *modeMemory_ = modeMemory;
-    modeMemory   = m.modeMemory;
+    modeMemory_t *otherModeMemory = m.modeMemory;
+
+    // The reference rings have to follow the pointers:
+    // each handle leaves the ring of its old object and joins the ring of its new one
+    if (modeMemory_) {
+      modeMemory_->removeMemoryRef(this);
+    }
+    if (otherModeMemory) {
+      otherModeMemory->removeMemoryRef(&m);
+    }
+    modeMemory   = otherModeMemory;
     m.modeMemory = modeMemory_;
+    if (modeMemory) {
+      modeMemory->addMemoryRef(this);
+    }
+    if (m.modeMemory) {
+      m.modeMemory->addMemoryRef(&m);
+    }
     return *this;
   }
 
